@@ -27,6 +27,9 @@ type Layout struct {
 	Meta    int         `json:"meta"`
 	Master  int         `json:"master"`
 	Tables  []TableSpec `json:"tables"`
+	// HostCase: the regionservers' host names contain upper-case letters
+	// (RS0.Example.COM); hbase:meta and ZooKeeper publish them as they are
+	HostCase bool `json:"host_case,omitempty"`
 }
 
 // ClientKnobs are the client options of a run.
